@@ -4,8 +4,9 @@ right access class.
 1. PathWalkMC: TLC explores the kernel walk state machine from every (forest, start directory, path string,
    follow/no-follow) within the bound: terminates, deterministic, equals the operator Resolve, idempotent.
 2. PathWalk_Gen: TLC decodes/enumerates the cases (walk family W, open-flag family K, argument family A).
-3. `pathwalk run`: the forests are materialised; the C probe performs every scripted raw system call under
-   the REAL ptrace runner with a recording handler, and reports the kernel's own answer for each path.
+3. `pathwalk run`: the forests are materialised; the C probe runs the script twice: directly, reporting the
+   kernel's own answer for each (descriptor, name) pair, and under the REAL ptrace runner with a recording
+   handler, performing every scripted raw system call.
 4. PathWalk_Judge: TLC judges every line: presented path(s) = Resolve, class in ClassSet, and the reference
    walk itself against the kernel truth (disagreement = model wrong = inconclusive, never a violation)."""
 import json
@@ -26,7 +27,7 @@ def gen_cfg(ctx, all3, kflags):
 INIT Init
 NEXT Next
 """ % (ctx.seed % 1000000, "TRUE" if all3 else "FALSE", ",".join('"%s"' % k for k in kflags),
-       ctx.pick("{1}", "{1, 2}"), ctx.pick("{1}", "{1, 3, 7}"))
+       "{1}", ctx.pick("{1}", "{1, 3, 7}"))
 
 
 def mc_cfg(maxlen):
@@ -66,13 +67,13 @@ def key_of(verdict, o, arg):
 def run(ctx):
     # ---- 1. design level
     if not ctx.replay:
-        m = ctx.tlc("PathWalkMC", cfg=mc_cfg(ctx.pick(2, 3)), workers=4, timeout=900)
+        m = ctx.tlc("PathWalkMC", cfg=mc_cfg(ctx.pick(2, 3)), workers=ctx.pick(2, 4), timeout=900)
         ctx.tlc_ok("PathWalkMC", m)
         ctx.log("PathWalkMC: %d distinct states in %.1fs" % (m.distinct, m.wall))
         ctx.cov["mc_states"] = m.distinct
 
     # ---- 2. cases
-    n_sel = 1 if ctx.replay else ctx.pick(700, 6000)
+    n_sel = 1 if ctx.replay else ctx.pick(700, 3000)
     sel = [[ctx.rng.randrange(1 << 30), ctx.rng.randrange(999983), ctx.rng.randrange(999979)] for _ in range(n_sel)]
     g = ctx.tlc("PathWalk_Gen", cfg=gen_cfg(ctx, not ctx.quick() and not ctx.replay, ctx.pick(KFLAGS_Q, KFLAGS_T)),
                 files={"sel.ndjson": sel}, timeout=900, count=False, heap="12g")
